@@ -27,7 +27,6 @@ def setup_repo(need_dataframe=False, need_cachey=False):
         sys.path.insert(0, VERIF_DIR)
     if sys.path[0] != REPO:
         sys.path.insert(0, REPO)
-    os.environ.setdefault("DASK_VERIF_SIM", "1")
     import dask
 
     got = os.path.realpath(os.path.dirname(os.path.dirname(dask.__file__)))
